@@ -42,6 +42,7 @@ def blockParse : Tok Block := do
   | "md" => pure (.closeMarkDone i none)
   | "tc" => pure (.closeThreadsCheck i)
   | "ts" => pure (.closeThreadsStop i)
+  | "bl" => pure (.closeBlocked i)
   | "sd" => pure (.closeShutdown i)
   | "fin" => pure (.closeFinish i)
   | "ab" => pure (.closeAbort i)
@@ -115,6 +116,44 @@ def c17tcs (toks : List String) : String :=
   | some (vs, _) => ";".intercalate vs
   | none => "bad-op"
 
+def excTok : Tok Exc := do
+  let r ← Tok.next
+  match r with
+  | "nr" => pure Exc.notRunning | "ca" => pure Exc.cancelled | "re" => pure Exc.runtimeError | "to" => pure Exc.timeout
+  | "lb" => pure Exc.loopBlocked | _ => failure
+
+def excStr : Exc → String
+  | .notRunning => "nr" | .cancelled => "ca" | .runtimeError => "re" | .timeout => "to" | .loopBlocked => "lb"
+
+/-- `c17conc <init snapshot> <n> {block} <m> {exc} <done> <loopThread> <loopRunning>`: several sync `close()` calls from several
+threads, as the harness saw them interleave (each call of each closer placed where it started / ended): the model must enable every
+block, raise exactly the observed exceptions (as a multiset) and end with the observed `done` / loop-thread flags -/
+def c17conc (toks : List String) : String :=
+  match (do
+      let init ← snapParse
+      let bs ← Tok.list blockParse
+      let ex ← Tok.list excTok
+      let d ← Tok.bool; let lt ← Tok.bool; let lr ← Tok.bool
+      Tok.done
+      pure (init, bs, ex, d, lt, lr) : Tok (SyncSnap × List Block × List Exc × Bool × Bool × Bool)).run toks with
+  | some ((init, bs, ex, d, lt, lr), _) =>
+    match run (hostOfSnap init []) bs with
+    | none =>
+      -- name the first block that is not enabled
+      let rec go (h : Host) (k : Nat) : List Block → String
+        | [] => "reject:?"
+        | b :: rest => match step h b with
+          | none => s!"reject:not-enabled:block{k}"
+          | some (h', _) => go h' (k + 1) rest
+      go (hostOfSnap init []) 0 bs
+    | some (h1, out) =>
+      let raisedNow := (out.filterMap (fun o => match o with | .raised e => some (excStr e) | _ => none)).mergeSort (· ≤ ·)
+      let want := (ex.map excStr).mergeSort (· ≤ ·)
+      if raisedNow != want then s!"reject:raise:model={raisedNow}"
+      else if (h1.done, h1.loopThread, h1.loopRunning) != (d, lt, lr) then s!"reject:state:model:done={h1.done},loopThread={h1.loopThread},loopRunning={h1.loopRunning}"
+      else "ok"
+  | none => "bad-op"
+
 def dispatch (cmd : String) (rest : List String) : Option String :=
   match cmd with
   | "c17run" => some (c17run rest)
@@ -122,6 +161,7 @@ def dispatch (cmd : String) (rest : List String) : Option String :=
   | "c17closes" => some (c17closes rest)
   | "c17sync" => some (c17sync rest)
   | "c17tcs" => some (c17tcs rest)
+  | "c17conc" => some (c17conc rest)
   | _ => none
 
 end Zc.Driver.C17
